@@ -5,6 +5,7 @@ package main
 import (
 	"fmt"
 	"math/bits"
+	"strings"
 
 	a "github.com/squadracorsepolito/acmelib"
 )
@@ -181,14 +182,17 @@ type genOpts struct {
 	Ties     bool // equal names for types/units/enums/attributes/builders, equal sizes, equal node ids across buses
 	MaxDepth int
 	Buses    int // number of buses (0: 1..3)
+	Special  bool // '|' in names and descriptions, line breaks in strings that only appear in table cells
+	Collide  bool // names that collide after clearSpaces ("a b" / "a_b")
 }
 
 const nameChars = "abcdefghijklmnopqrstuvwxyzABCDEFGHIJKLMNOPQRSTUVWXYZ0123456789_ .-+*"
 
 type gen struct {
-	r    *rng
-	o    genOpts
-	uniq int
+	r       *rng
+	o       genOpts
+	uniq    int
+	collide string
 }
 
 func (g *gen) word(min, max int) string {
@@ -207,7 +211,21 @@ func (g *gen) word(min, max int) string {
 			break
 		}
 	}
+	if g.o.Special && n >= 2 && g.r.chance(12) {
+		b[1+g.r.below(n-1)] = '|'
+	}
 	return string(b)
+}
+
+// cellDesc: a description that is only ever written into a table cell (signals, types, units,
+// enum values): may also contain line breaks.
+func (g *gen) cellDesc() string {
+	d := g.desc()
+	if g.o.Special && d != "" && g.r.chance(20) {
+		k := 1 + g.r.below(len(d)-1)
+		d = d[:k] + []string{"\n", "\r\n", "\n\n", "\r"}[g.r.below(4)] + d[k:]
+	}
+	return d
 }
 
 // uname returns a name that is unique in the whole specification.
@@ -245,7 +263,7 @@ func genSpec(r *rng, o genOpts) *Spec {
 
 	nTypes := 2 + r.below(4)
 	for i := 0; i < nTypes; i++ {
-		t := TypeSpec{Name: g.pname("ty"), Desc: g.desc(), Kind: r.below(4)}
+		t := TypeSpec{Name: g.pname("ty"), Desc: g.cellDesc(), Kind: r.below(4)}
 		size := 1 + r.below(12)
 		if o.Ties && r.chance(60) {
 			size = 4 + 4*r.below(2)
@@ -262,7 +280,7 @@ func genSpec(r *rng, o genOpts) *Spec {
 	}
 	nUnits := 1 + r.below(3)
 	for i := 0; i < nUnits; i++ {
-		u := UnitSpec{Name: g.pname("un"), Desc: g.desc(), Symbol: g.word(1, 3), Kind: r.below(4)}
+		u := UnitSpec{Name: g.pname("un"), Desc: g.cellDesc(), Symbol: g.word(1, 3), Kind: r.below(4)}
 		if r.chance(30) { // a unit is legal without a symbol (dimensionless) ...
 			u.Symbol = ""
 		}
@@ -282,7 +300,7 @@ func genSpec(r *rng, o genOpts) *Spec {
 			idx := 0
 			for j := 0; j < nv; j++ {
 				idx += r.below(3)
-				e.Vals = append(e.Vals, EnumValSpec{Name: g.uname("v"), Desc: g.desc(), Index: idx})
+				e.Vals = append(e.Vals, EnumValSpec{Name: g.uname("v"), Desc: g.cellDesc(), Index: idx})
 				idx++
 			}
 		}
@@ -296,6 +314,11 @@ func genSpec(r *rng, o genOpts) *Spec {
 			k = r.below(5)
 		}
 		at := AttrSpec{Kind: k, Name: g.pname("at"), Desc: g.desc()}
+		if o.Collide && i > 0 && r.chance(40) {
+			if prev := sp.Attrs[i-1].Name; strings.Contains(prev, " ") {
+				at.Name = strings.ReplaceAll(prev, " ", "_") // "at3 x" / "at3_x": one BA_DEF_ name
+			}
+		}
 		switch k {
 		case 0:
 			at.DefS = g.word(0, 6)
@@ -588,7 +611,16 @@ func (g *gen) signal(sp *Spec, room, depth int) *SigSpec {
 		return nil
 	}
 	kind := r.below(10)
-	s := &SigSpec{Name: g.uname("s"), Desc: g.desc(), Unit: -1}
+	s := &SigSpec{Name: g.uname("s"), Desc: g.cellDesc(), Unit: -1}
+	if g.o.Collide {
+		if g.collide != "" {
+			s.Name, g.collide = g.collide, ""
+		} else if r.chance(15) {
+			g.uniq++
+			s.Name = fmt.Sprintf("s%d c", g.uniq)
+			g.collide = fmt.Sprintf("s%d_c", g.uniq) // the next signal: equal after clearSpaces
+		}
+	}
 	if r.chance(25) {
 		s.StartValue = float64(r.below(100))
 	}
